@@ -470,3 +470,23 @@ package kafka
 //@   unproved pre@"apiKey.SelectVersion(r.MinVersion, r.MaxVersion)" version ranges come from the broker's ApiVersions response and the registry (C12 covers SelectVersion under these preconditions)
 //@   unproved typeassert@"r.(*apiversions.Response)" protocol.Conn.RoundTrip returns the response type registered for the request type (C04/C06)
 //@   ensures result1 != nil ==> result0 == nil
+
+//@ property C09 C15
+
+// $left: the member id the group currently holds has been given up (LeaveGroup sent) or there is none.
+//@ func (*ConsumerGroup).leaveGroup
+//@   trusted sends LeaveGroup for memberID on a fresh coordinator connection (best effort); nothing to do for an empty id
+//@   modifies cg.$left
+//@   ensures cg.$left
+//@ func (*ConsumerGroup).nextGeneration
+//@   trusted joins/syncs the group and runs one generation; afterwards the returned member id is the one the group holds
+//@   modifies cg.$left
+//@   ensures cg.$left == (len(result0) == 0)
+
+// Closing the group sends LeaveGroup for the current member id: the run loop never exits while it still holds a member id.
+//@ func (*ConsumerGroup).run
+//@   requires cg.$left
+//@   option noframe
+//@   modifies heap
+//@   ensures cg.$left
+//@   loop 0 invariant cg.$left == (len(memberID) == 0)
